@@ -249,15 +249,8 @@ theorem isBest_unique (hu : UniqueBest bs) {a b : BlockId} (h1 : IsBest bs a) (h
 
 /-! ### every crash point -/
 
-/-- the state after crash point k, restart, recovery loop and feeding every block — computed WITHOUT stopping at a panic, so that
-    its ghost flag is meaningful in every case -/
-def crashS3 (bigs : List Coin) (ops : List Op) (k : Nat) : St :=
-  match openNode (applyAll {} ((run bigs ops).es.take k)) bigs 0 with
-  | .ok s1 => feedAll { clientRecover s1 with es := [] } (submitted ops)
-  | .error _ => { n := {}, d := {} }
-
-/-- ghost: did the restart after crash point k (recovery loop or feeding the blocks) read an undo file of another block? -/
-def crashForeign (bigs : List Coin) (ops : List Op) (k : Nat) : Bool := (crashS3 bigs ops k).foreign
+-- `crashS3` / `crashForeign` (the restart after crash point k computed WITHOUT stopping at a panic, and its ghost flag) live in
+-- Model/PersistSpec.lean: the oracle reports the flag also where the model's restart panics.
 
 theorem clientRecover_noop (s : St) (h : (farthest s.n).2.1 ≤ s.n.tipHeight) : clientRecover s = s := by
   unfold clientRecover
